@@ -19,7 +19,7 @@ var c09EqExceptions = ExcTable{
 func init() {
 	register(&Property{
 		ID:          "C09",
-		Explanation: "Decides the three conditions of the cache contract in internal/cache/cache.go that 'Go cannot enforce', as shapes of the code (necessary conditions of rebuild == clean build, not the behaviour): R1 the AST cache key (js_parser/css_parser Options.Equal, JSON options ==, source ==) reads every parser option through both operands; R2 no code that runs after a cached AST is returned (bundler, graph, linker, renamer, printers and the helpers they reach) stores into AST-typed memory unless that memory was cloned by CloneLinkerGraph/parseFile (type-path write-set analysis; the clone steps themselves are checked to exist); R3 every file-system observation on build paths goes through internal/fs (whose realFS records watch data); R4 realFS.ReadFile/ReadDirectory/ModKey and DirEntries.Get/SortedKeys record what they observed on every observing path and WatchData covers every watch state; R5 the process-global runtime AST cache depends only on its key. R7 modkey-components: the modification key is built from inode (where available), size, mtime (sec, nsec) and mode, and compared only as a whole. R8 cache-results-immutable: E-GLOB with the results of internal/cache methods as sources. R9 cache-hit-replays-diagnostics: every path to a return of cached entry fields reads the entry's stored messages. R10 range-self-mutation: the C08/R11 analysis. R11 plugin-watch-paths-always-recorded: after every dynamic call returning a struct with AbsWatchFiles/AbsWatchDirs each field is read on every path to a return and to the next callback. NOT covered: timeliness of watch predicates (polling, mod-key granularity), resolver-internal per-build caches, plugin-provided data.",
+		Explanation: "Decides the three conditions of the cache contract in internal/cache/cache.go that 'Go cannot enforce', as shapes of the code (necessary conditions of rebuild == clean build, not the behaviour): R1 the AST cache key (js_parser/css_parser Options.Equal, JSON options ==, source ==) reads every parser option through both operands; R2 no code that runs after a cached AST is returned (bundler, graph, linker, renamer, printers and the helpers they reach) stores into AST-typed memory unless that memory was cloned by CloneLinkerGraph/parseFile (type-path write-set analysis; the clone steps themselves are checked to exist); R3 every file-system observation on build paths goes through internal/fs (whose realFS records watch data); R4 realFS.ReadFile/ReadDirectory/ModKey and DirEntries.Get/SortedKeys record what they observed on every observing path and WatchData covers every watch state; R5 the process-global runtime AST cache depends only on its key. R7 modkey-components: the modification key is built from inode (where available), size, mtime (sec, nsec) and mode, and compared only as a whole. R8 cache-results-immutable: E-GLOB with the results of internal/cache methods as sources. R9 cache-hit-replays-diagnostics: every path to a return of cached entry fields reads the entry's stored messages. R10 range-self-mutation: the C08/R11 analysis. R11 plugin-watch-paths-always-recorded: after every dynamic call returning a struct with AbsWatchFiles/AbsWatchDirs each field is read on every path to a return and to the next callback. R12 unstable-sort-keys: the C08/R3 analysis. NOT covered: timeliness of watch predicates (polling, mod-key granularity), resolver-internal per-build caches, plugin-provided data.",
 		Run: func(p *Prog, tier string) []*RuleResult {
 			return []*RuleResult{c09CacheKey(p), c09UnconditionalKey(p), c09Frozen(p), c09CloneSteps(p), c09FSLayering(p), c09WatchRecording(p), c09RuntimeCacheKey(p), c09ModKeyComponents(p), cacheResultImmutability(p, "C09/R8 cache-results-immutable"), c09CacheHitReplay(p, "C09/R9 cache-hit-replays-diagnostics"), renamed(c08RangeSelfMutation(p), "C09/R10 range-self-mutation", "source indices are cached by an incremental context, so an element a loop over the scanner's result table adds to that table lies beyond the loop's range on a fresh build and can lie inside it on a rebuild: the rebuild then processes a file the fresh build does not (same analysis as C08/R11)"), c09PluginWatchPaths(p), renamed(c08UnstableKeys(p), "C09/R12 unstable-sort-keys", "source indices are handed out in order of first appearance over the whole life of a build context, so a comparator that orders by a raw source index gives a rebuild a different order (and different collision-renamed names) than a fresh build of the same tree (same analysis as C08/R3)")}
 		},
